@@ -164,11 +164,16 @@ def report(ck, runs, verdict, props, pid_label):
                     continue
             if c.get("solver") and p == "OptimalCert" and outc == "optimal":
                 # external back-end: classify coarsely (its numerics are not this repository's code)
-                if r["kind"] in ("pinf", "dinf"):
+                if cert.get("s_symmetric") is False or cert.get("z_symmetric") is False:
+                    cls = "wrapper-returns-nonsymmetric-blocks"
+                elif r["kind"] in ("pinf", "dinf"):
                     cls = "reports-optimal-on-%s-problem" % r["kind"]
                 elif cert.get("fields_ok") and cert.get("split_ok") and (r.get("det") or {}).get("pres", 1) < 1e-3 \
                         and (r.get("det") or {}).get("dres", 1) < 1e-3 and abs((r.get("det") or {}).get("gap", 1)) < 1e-2:
                     cls = "accuracy-below-requested-tolerances"
+                elif cert.get("fields_ok") and cert.get("split_ok") and cert.get("pres_ok"):
+                    # everything the wrapper computes is right; the point returned by the external library is not optimal
+                    cls = "external-solution-not-optimal"
                 else:
                     cls = "cert=" + "+".join(failed)
                 sig = "%s|%s|solver=%s|%s" % (c.get("entry"), p, c.get("solver"), cls)
